@@ -17,17 +17,26 @@ def custom(ctx):
 
 
 def nontrivial(req, obs):
+    # accepted-program streams: the compilation succeeded; diagnostics streams: the program really is rejected
+    if "\tdiag:" in req or "\tsrc:" in req:
+        return obs.startswith("err")
     return obs.startswith("ok")
 
 
 SPEC = {
     "id": "C07",
-    "gens": ["HashSites"],
-    "lean_modules": ["RsslVerif.Thm.C07", "RsslVerif.Thm.C02", "RsslVerif.Thm.C15"],
+    "gens": ["HashSites", "EnumRange"],
+    "lean_modules": ["RsslVerif.Thm.C07", "RsslVerif.Lemmas.EnumRange", "RsslVerif.Thm.C02", "RsslVerif.Thm.C15"],
     "theorems": [T + n for n in [
         "sort_perm_invariant", "collectSort_perm_invariant", "sortBy_key_perm_invariant",
-        "lookup_perm_invariant", "fold_perm_invariant", "hash_sites_covered",
-        "scoped_declarations_unobserved", "no_other_nondeterminism"]] + [
+        "lookup_perm_invariant", "fold_perm_invariant",
+        # tie: inventory of hash-ordered traversals, each with the fingerprint and the effects of its body
+        "hash_sites_covered", "site_effects_reviewed", "classified_all_current",
+        "scoped_declarations_unobserved", "no_other_nondeterminism",
+        # worked example of a commutative fold: Context::end_enum transcribed (Model/EnumRange.lean)
+        "end_enum_shape_as_modelled", "end_enum_type_or_error_order_independent", "end_enum_panics_order_independent",
+        "gather_panic_message_order_dependent", "end_enum_order_independent", "blame_first_order_dependent"]] + [
+        "RsslVerif.Lemmas.EnumRange.foldl_perm_of_invariant",
         # the two non-trivial sites are proved order independent over the models of the code itself
         "RsslVerif.Thm.C02.closure_order_independent",      # usage-analysis fixpoint (recurse) vs key iteration order
         "RsslVerif.Thm.C02.required_order_independent",     # required_globals collect + sort
